@@ -117,7 +117,7 @@ def _points(kn, l):
 
 
 def run(ctx):
-    proof = core.prove(MODULES, leanchecker=ctx.thorough)
+    proof = core.prove(MODULES, extra_targets=["AdaptiveProofs.Examples.Misc"], leanchecker=ctx.thorough)
     args = [(kn, ctx.rng.randrange(1 << 30), ctx.n(30, 60)) for kn in KINDS for _ in range(ctx.n(14, 300))]
     results = core.pmap(case, args)
     failures, dist, aborted = [], {}, {}
